@@ -46,6 +46,7 @@ func runC01(c *core.Ctx) {
 	c.Rule("R3", "walk bookkeeping: append ⇔ filter includes; extend ⇔ operation extends on the state; per-zone totals count all instances; early stop ⇔ every zone satisfied or exhausted", 5)
 	c.Rule("R5", "the token→owner index is rebuilt from the descriptor on every topology change and never modified (shared with C13.R7)", 1)
 	c.Rule("R6", "every token of the ring reaches the sorted lists the walk searches: the merges that build them drop nothing, 2^32-1 included (shared with C14.R3 and C14.R7)", 2)
+	c.Rule("R7", "the walk's per-zone counters are separate storage: each counter slice is a prefix of its own array or a fresh allocation", 1)
 	c.Rule("R4", "default strategy: quorum computed before filtering over max(RF, walked); keep ⇔ IsHealthy (state ∧ one-sided heartbeat age ≤ timeout); slack = healthy − quorum", 6)
 	pkg := c.Prog.Pkg("ring")
 	if pkg == nil {
@@ -236,6 +237,7 @@ func runC01(c *core.Ctx) {
 	c13ImmutableIndex(c, pkg, "R5")
 	c14ExtremumAs(c, pkg, "R6")
 	c14MergeMarkerAs(c, pkg, "R6")
+	c01Counters(c, pkg)
 	// ---- R4
 	c01Filter(c, pkg)
 }
@@ -618,4 +620,68 @@ func targetsOf(g *an.Graph, first *ast.ReturnStmt, rest []*ast.ReturnStmt) []an.
 		out = append(out, g.Locate(r))
 	}
 	return out
+}
+
+// c01Counters (R7): findInstancesForKey keeps three per-zone counters (total / examined / found hosts)
+// in integer slices indexed by zone. The stop and skip decisions of R3 read them, so they must not
+// overlap: every definition of such a slice is `buf[:n]` of an array no other slice uses, or make(…).
+func c01Counters(c *core.Ctx, pkg *packages.Package) { c01CountersAs(c, pkg, "R7") }
+
+func c01CountersAs(c *core.Ctx, pkg *packages.Package, R string) {
+	fn := an.FindFunc(pkg, "Ring.findInstancesForKey")
+	if fn == nil {
+		c.Miss(R, "func=findInstancesForKey", "not found")
+		return
+	}
+	bases := map[types.Object][]string{} // slice variable -> storage bases of its definitions
+	var bad []string
+	fn.InspectShallow(func(n ast.Node) bool {
+		as, ok := n.(*ast.AssignStmt)
+		if !ok || len(as.Lhs) != len(as.Rhs) {
+			return true
+		}
+		for i, l := range as.Lhs {
+			id, ok := l.(*ast.Ident)
+			if !ok {
+				continue
+			}
+			o := fn.ObjOf(id)
+			sl, isSlice := fn.Info().TypeOf(l).(*types.Slice)
+			if o == nil || !isSlice {
+				continue
+			}
+			if b, ok := sl.Elem().(*types.Basic); !ok || b.Kind() != types.Int {
+				continue
+			}
+			switch r := an.Unparen(as.Rhs[i]).(type) {
+			case *ast.SliceExpr:
+				base, isID := an.Unparen(r.X).(*ast.Ident)
+				if !isID || r.Low != nil {
+					bad = append(bad, fmt.Sprintf("%s = %s (not a prefix of a named buffer)", id.Name, types.ExprString(r)))
+					continue
+				}
+				bases[o] = append(bases[o], "buf:"+base.Name)
+			case *ast.CallExpr:
+				if f, ok := r.Fun.(*ast.Ident); ok && f.Name == "make" {
+					bases[o] = append(bases[o], fmt.Sprintf("make@%d", c.Prog.Fset.Position(r.Pos()).Line*1000+c.Prog.Fset.Position(r.Pos()).Column))
+				} else {
+					bad = append(bad, fmt.Sprintf("%s = %s", id.Name, types.ExprString(r)))
+				}
+			default:
+				bad = append(bad, fmt.Sprintf("%s = %s", id.Name, types.ExprString(as.Rhs[i])))
+			}
+		}
+		return true
+	})
+	owner := map[string]types.Object{}
+	for o, bs := range bases {
+		for _, b := range bs {
+			if prev, ok := owner[b]; ok && prev != o {
+				bad = append(bad, fmt.Sprintf("%s and %s share %s", prev.Name(), o.Name(), b))
+			}
+			owner[b] = o
+		}
+	}
+	sort.Strings(bad)
+	c.Check(len(bases) >= 3 && len(bad) == 0, R, "func=findInstancesForKey:counters", fn.Pos(), fmt.Sprintf("%d integer counter slices, each on storage of its own: %v", len(bases), bad), len(bases))
 }
